@@ -37,6 +37,8 @@ type runner struct {
 	// updated by writes only, never by a flush, and the top store must answer from it at all times.
 	chainTop int
 	plain    map[string][]byte
+	// a Seek stopped between its two critical sections (split.go)
+	split *splitSeek
 }
 
 type pendingFail struct{ key, msg string }
@@ -74,6 +76,9 @@ func (r *runner) line(op, obs string) {
 	r.pending = nil
 	r.o.Line(op, obs)
 	r.nLines++
+	if r.split != nil {
+		r.split.record(r.w)
+	}
 }
 
 func b01(b bool) string {
@@ -212,14 +217,12 @@ type reentOp struct {
 	found     bool
 }
 
-var otherID = int32(6) // another contract: keys 70 06 00 00 00 ‖ …
-
 func (r *runner) reentrant(n *node, mode int, seekPfx, item []byte) *reentOp {
 	g := r.g
 	if mode == reNone || (mode == reRandom && !g.r.Chance(2, 3)) {
 		return nil
 	}
-	otherPfx := []byte{0x70, byte(otherID), 0, 0, 0}
+	otherPfx := otherPrefix
 	get := func(full []byte, viaItem bool, cid int32) *reentOp {
 		var v []byte
 		var found bool
@@ -241,8 +244,8 @@ func (r *runner) reentrant(n *node, mode int, seekPfx, item []byte) *reentOp {
 	if mode == reAlways {
 		op = 1
 	}
-	if n.dead && op >= 4 {
-		op -= 4
+	if (n.dead || (r.split != nil && n.id != r.split.hold)) && op >= 4 {
+		op -= 4 // no writes: the store is disposed, or a scan's window only has writers on the shared store
 	}
 	switch op {
 	case 0: // the item just delivered, through the dao
@@ -360,7 +363,11 @@ func (r *runner) opDaoSeek(id int, sr seekRange, async bool, re int) {
 	} else {
 		r.checkSeek("dao."+op, id, full, got)
 	}
-	r.line(fmt.Sprintf("%s %d 70 %d %s %s %s %d %d", op, id, daoID, hx.Hex(sr.pfx), hx.Hex(sr.start), b01(sr.bw), sr.depth, sr.lim), obs)
+	r.line(fmt.Sprintf("%s %d %02x %d %s %s %s %d %d", op, id, daoSP, daoID, hx.Hex(sr.pfx), hx.Hex(sr.start), b01(sr.bw), sr.depth, sr.lim), obs)
+	r.o.Count(fmt.Sprintf("dao:sp=%02x", daoSP))
+	if daoID < 0 {
+		r.o.Count("dao:negative-id")
+	}
 	r.countSeek(op, id, full, got)
 	if len(reops) > 0 {
 		r.o.Count("seek:with-reentrant-callback")
@@ -624,6 +631,9 @@ func (r *runner) compareDumps(when string, ids []int, before, after []string) {
 	for i := range ids {
 		if before[i] != after[i] {
 			r.fail("flush-changes-answer", "%s: the answers of store %d changed across the flush step", when, ids[i])
+			if os.Getenv("VERIF_DEBUG") != "" {
+				fmt.Fprintf(os.Stderr, "BEFORE %s\nAFTER  %s\n", before[i], after[i])
+			}
 			return
 		}
 	}
@@ -697,9 +707,16 @@ func (r *runner) opPausedPersist(id int, fail bool) {
 	}()
 	select {
 	case <-n.pause.reached:
+	case rs := <-done:
+		// Persist came back without handing anything to the lower store although keys were pending
+		n.pause.mode.Store(0)
+		r.fail("persist-count", "Persist store=%d returned %d (err %v) without calling the lower store's PutChangeSet, %d keys pending", id, rs.n, rs.err, len(n.own))
+		r.line(fmt.Sprintf("persist %d", id), fmt.Sprintf("%d", rs.n))
+		return
 	case <-time.After(20 * time.Second):
 		r.o.Fail("persist-hang", r.k, "Persist store=%d never reached PutChangeSet", id)
 		fmt.Fprintln(os.Stderr, "persist hang")
+		r.o.Close()
 		os.Exit(3)
 	}
 	// step 1 done: fresh maps, tempstore interposed
@@ -763,6 +780,26 @@ func (r *runner) windowOps(id int, views []int) {
 			v = r.chainTop
 			if r.w.nodes[v].dead && op < 2 {
 				op = 2
+			}
+		}
+		if r.g.r.Chance(1, 5) {
+			// a scan whose two sections straddle flush steps
+			if r.split != nil {
+				r.splitEnd()
+			} else if r.plain == nil || r.holdNode(v) == v {
+				r.splitBegin(v, r.g.rng(false), r.g.r.Bool())
+			}
+			continue
+		}
+		if r.split != nil && op < 2 {
+			// inside a scan's window the writers work on the shared store the scan stopped at —
+			// if that store is above the one being flushed (a write under a flush in progress is
+			// not a write to the stack)
+			op = 2
+			for _, x := range views {
+				if x == r.split.hold {
+					v, op = x, r.g.r.Intn(2)
+				}
 			}
 		}
 		switch op {
@@ -955,6 +992,33 @@ func (r *runner) randomOp() {
 		}
 		rd = []int{r.chainTop}
 	}
+	inWindow := r.split != nil
+	if inWindow {
+		// a scan is stopped between its two sections: the writers of its window work on the shared
+		// store the scan stopped at, flushes are those of the scan's own chain (and of private
+		// stores over the shared one, which are batch writes to it)
+		r.split.nops++
+		if r.split.nops > 6 || g.r.Chance(1, 4) {
+			r.splitEnd()
+			return
+		}
+		h := r.split.hold
+		wr = []int{h}
+		onChain := map[int]bool{}
+		for n := w.nodes[r.split.reader]; ; n = w.nodes[n.ps] {
+			onChain[n.id] = true
+			if n.ps < 0 {
+				break
+			}
+		}
+		var fl2 []int
+		for _, id := range fl {
+			if onChain[id] || w.nodes[id].ps == h {
+				fl2 = append(fl2, id)
+			}
+		}
+		fl = fl2
+	}
 	// most traffic goes to the top-most stores
 	pickTop := func(ids []int) int {
 		if g.r.Chance(3, 5) {
@@ -962,7 +1026,13 @@ func (r *runner) randomOp() {
 		}
 		return ids[g.r.Intn(len(ids))]
 	}
-	switch g.r.Weighted([]int{24, 10, 6, 12, 16, 9, 4, 4, 2, 6, 2, 4, 3, 1, 2, 4}) {
+	switch g.r.Weighted([]int{24, 10, 6, 12, 16, 9, 4, 4, 2, 6, 2, 4, 3, 1, 2, 4, 4}) {
+	case 16:
+		// a Seek / SeekAsync in two sections: its window is the next few ops
+		id := pickTop(rd)
+		if !chain || r.holdNode(id) == id {
+			r.splitBegin(id, g.rng(false), g.r.Bool())
+		}
 	case 0:
 		if len(wr) > 0 {
 			r.opPut(pickTop(wr), g.key(), g.val(), g.r.Chance(1, 4))
@@ -974,7 +1044,7 @@ func (r *runner) randomOp() {
 	case 2:
 		// changeset to a cache layer or straight to the backend
 		id := 0
-		if (chain || g.r.Chance(1, 2)) && len(wr) > 0 {
+		if (chain || inWindow || g.r.Chance(1, 2)) && len(wr) > 0 {
 			id = wr[g.r.Intn(len(wr))]
 		} else if chain {
 			return
@@ -1020,7 +1090,7 @@ func (r *runner) randomOp() {
 		}
 		r.opDaoSeek(pickTop(rd), sr, g.r.Bool(), re)
 	case 8:
-		if chain {
+		if chain || inWindow {
 			return // SeekGC drops cache entries, it is not a write to the map
 		}
 		id := g.r.Intn(len(w.nodes))
@@ -1049,7 +1119,7 @@ func (r *runner) randomOp() {
 					ch = append(ch, n.id)
 				}
 			}
-			if len(ch) > 0 && !w.nodes[id].dead {
+			if len(ch) > 0 && !w.nodes[id].dead && (!inWindow || id == r.split.hold) {
 				r.opPersistPrivate(id, ch)
 				return
 			}
@@ -1064,9 +1134,15 @@ func (r *runner) randomOp() {
 		if bytes.HasPrefix(sr.pfx, daoPrefix) {
 			pfx = sr.pfx[len(daoPrefix):]
 		}
-		opts := []int64{0, 0, istorage.FindRemovePrefix, istorage.FindKeysOnly, istorage.FindKeysOnly | istorage.FindRemovePrefix, istorage.FindValuesOnly}[g.r.Intn(6)]
+		opts := findGoodOpts[g.r.Intn(len(findGoodOpts))]
+		if g.r.Chance(1, 8) {
+			opts = findBadOpts[g.r.Intn(len(findBadOpts))]
+		}
 		if sr.bw {
 			opts |= istorage.FindBackwards
+		}
+		if g.r.Chance(1, 3) {
+			pfx = nil // the whole contract
 		}
 		r.opFind(pickTop(rd), pfx, opts, sr.lim)
 	case 14:
@@ -1137,7 +1213,8 @@ func runCaseOnce(o *hx.Out, f *hx.Flags, k int, kind string, nops int, corpus fu
 			if !ok {
 				panic(e)
 			}
-			// leave no goroutine stuck in a paused persist
+			// leave no goroutine stuck in a held seek or a paused persist
+			r.splitRelease()
 			for _, n := range w.nodes {
 				if n.pause != nil {
 					n.pause.mode.Store(0)
@@ -1160,6 +1237,7 @@ func runCaseOnce(o *hx.Out, f *hx.Flags, k int, kind string, nops int, corpus fu
 	}()
 	o.Case(k)
 	if corpus != nil {
+		setContract(5, 6, 0x70)
 		corpus(r)
 		for _, p := range r.pending {
 			o.Fail(p.key, k, "%s", p.msg)
@@ -1167,6 +1245,7 @@ func runCaseOnce(o *hx.Out, f *hx.Flags, k int, kind string, nops int, corpus fu
 		o.Sample(fmt.Sprintf("case %d: corpus case on backend %s", k, kind))
 		return "", false
 	}
+	pickContract(r.g.r)
 	r.buildTree()
 	// some content first: a batch straight into the backend and a few puts in the layers
 	var es []kv
@@ -1185,6 +1264,7 @@ func runCaseOnce(o *hx.Out, f *hx.Flags, k int, kind string, nops int, corpus fu
 	for i := 0; i < nops; i++ {
 		r.randomOp()
 	}
+	r.splitEnd()
 	r.finalChecks()
 	if ok, m := r.backendIntact(); !ok {
 		panic(abortCase{"at the end of the case: " + m})
@@ -1228,7 +1308,7 @@ func main() {
 	for _, kind := range allKinds {
 		for _, via := range []bool{false, true} {
 			if f.Want(k) {
-				n := f.N(2000, 20000)
+				n := f.N(800, 20000) // disk: one fsync per batch
 				if kind == "mem" {
 					n = f.N(4000, 40000)
 				}
@@ -1245,6 +1325,26 @@ func main() {
 				kind = "bolt"
 			}
 			runConcCase(o, f, k, kind)
+		}
+		k++
+	}
+	// a writer and a flusher racing seekers: the two-section scan under real scheduling (oracle only)
+	for i, n := 0, f.N(10, 300); i < n; i++ {
+		if f.Want(k) {
+			kind := "mem"
+			if i%5 == 3 {
+				kind = "bolt"
+			} else if i%5 == 4 {
+				kind = "level"
+			}
+			runWindowRaceCase(o, f, k, kind)
+		}
+		k++
+	}
+	// one PutChangeSet on BoltDB = one committed bbolt transaction (meta page txid), oracle only
+	for i, n := 0, f.N(2, 20); i < n; i++ {
+		if f.Want(k) {
+			runBoltTxCase(o, f, k, f.N(80, 800))
 		}
 		k++
 	}
